@@ -299,6 +299,39 @@ End Inter.
 End TipClean.
 
 (* ==== the theorems ==================================================================================================== *)
+(* the subtlety, closed form *)
+Theorem unpruned_graph_exts K st thr mode (lreads : list lread) order g :
+  4 <= K -> Forall (fun r => wf_dna (fst r)) lreads -> NoDup order ->
+  unpruned_graph K st thr mode lreads order = Some g ->
+  forall (n : node_t) s c, In n g -> (c < 4)%N ->
+  let x := term_kmer K (nd_seq n) s in
+  (kpal st x = false ->
+     (e_has_ext (nd_exts n) (dirb s) c = true <-> In (cn st (lk x s c)) (read_links K st (map fst lreads)))) /\
+  (kpal st x = true ->
+     (e_has_ext (nd_exts n) (dirb s) c = true \/ e_has_ext (nd_exts n) (dirb (dflip s)) (comp c) = true
+      <-> In (cn st (lk x s c)) (read_links K st (map fst lreads)))).
+Proof. intros HK Hwf Hnd Hg. exact (inter_exts K st thr mode lreads HK Hwf order Hnd g Hg). Qed.
+(* the intermediate graph has exactly the retained k-mers, each once *)
+Theorem unpruned_graph_kmers K st thr mode (lreads : list lread) order g :
+  4 <= K -> Forall (fun r => wf_dna (fst r)) lreads -> NoDup order ->
+  unpruned_graph K st thr mode lreads order = Some g ->
+  Permutation (gk K st g) (retained K st thr (map fst lreads)) /\
+  lgraph_ok K st (kjoin_f mode (kmer_colour K st lreads)) (unpruned_links K st thr lreads) g /\
+  PipelineCheck.payload_ok K st mode rank (kmer_colour K st lreads) g.
+Proof.
+  intros HK Hwf Hnd Hg. destruct (inter_facts K st thr mode lreads HK Hwf order Hnd g Hg) as (A & B & C). auto.
+Qed.
+(* re-compressing the intermediate graph with ANY censor list *)
+Theorem unpruned_censor_spec K st thr mode (lreads : list lread) order g (c : list nat) out :
+  4 <= K -> Forall (fun r => wf_dna (fst r)) lreads -> NoDup order ->
+  unpruned_graph K st thr mode lreads order = Some g ->
+  compress_graph pay pay_reduce (pay_join mode) K st g (Some c) = Some out ->
+  Permutation (gk K st out) (gk K st (surv_nodes g c)) /\
+  (forall w, In w (graph_links K st out) <->
+             In w (spec_links K st thr (map fst lreads)) /\ both_in K st (fun k => In k (gk K st out)) w) /\
+  unitig_graph K st mode (kmer_colour K st lreads) out /\
+  PipelineCheck.payload_ok K st mode rank (kmer_colour K st lreads) out.
+Proof. intros HK Hwf Hnd Hg. exact (inter_censor_spec K st thr mode lreads HK Hwf order Hnd g Hg c out). Qed.
 (* Goal 2: without cleaning, re-compressing the unpruned graph gives THE assembly of the reads *)
 Theorem recompress_unpruned_assembly K st thr mode (lreads : list lread) order out :
   4 <= K -> Forall (fun r => wf_dna (fst r)) lreads -> NoDup order ->
@@ -433,6 +466,9 @@ Proof.
   destruct Hb as [B1 B2]. split; (eapply Permutation_in; [symmetry; exact Pall|]); assumption.
 Qed.
 
+Print Assumptions unpruned_graph_exts.
+Print Assumptions unpruned_graph_kmers.
+Print Assumptions unpruned_censor_spec.
 Print Assumptions recompress_unpruned_assembly.
 Print Assumptions recompress_unpruned_total.
 Print Assumptions recompress_unpruned_eq_direct.
